@@ -11,7 +11,7 @@ import check_parse as cp
 
 IDS = ['S', 'A', 'B', 'Expr', 'T_1', 'x', '_y', 'Item2', 'list', 'N']
 TIDS = ['NUM', 'ID', 'PLUS', 'tok', 'K_W', 'Z9']
-CHARS = ['+', '*', '(', ')', 'a', 'b', ';', '0', '"', ':', '#', '|']
+CHARS = ['+', '*', '(', ')', 'a', 'b', ';', '0', '"', ':', '#', '|', '\xe9', '\x80', '\xff']
 
 
 def rand_desc_grammar(rng):
@@ -201,8 +201,22 @@ def run(pid, tier, seed, replay=None):
     texts = []
     N = 1200 if quick else 15000
     for i in range(N):
-        tdecl, rules = rand_desc_grammar(rng)
-        t = print_desc(rng, tdecl, rules)
+        t = None
+        if rng.random() < 0.45:
+            # a well-formed grammar (accepted by yaep_read_grammar, so that parses can be compared in depth), re-spaced at random
+            gw = gen.rand_wf_grammar(rng, rng.random() < 0.5, max_nt=3, max_t=3, max_rhs=3, p_anode=0.7, err_rules=rng.choice([0, 0, 1]),
+                                     p_empty=rng.choice([0, 0.2]))
+            if gw is not None:
+                t0 = yvlib.desc_text(gw.as_dict(), rng)
+                if t0 is not None:
+                    # between the left hand side and its colon only blanks are skipped by the lexer (comments are not part
+                    # of the documented syntax at all; the implementation skips them between tokens, not inside `name :')
+                    tl = t0.split()
+                    t = ''.join(tok + (rng.choice([' ', '\n', ' \t', '']) if i + 1 < len(tl) and tl[i + 1] == ':' else ws(rng, True))
+                                for i, tok in enumerate(tl))
+        if t is None:
+            tdecl, rules = rand_desc_grammar(rng)
+            t = print_desc(rng, tdecl, rules)
         texts.append(('valid', t))
         if rng.random() < 0.5:
             texts.append(('mutated', mutate_text(rng, t)))
@@ -217,8 +231,19 @@ def run(pid, tier, seed, replay=None):
             L += yvlib.script_read(1, g, strict)
             # sample inputs over the declared codes
             codes = [c for n, c in g['terms'] if c >= 0] or [0]
-            for _ in range(3):
-                toks = [rng.choice(codes) for _ in range(rng.randint(0, 5))]
+            # sentences of the denoted grammar (every alternative gets its chance), and random sequences
+            sents = []
+            try:
+                gg = gen.Gram([tuple(t_) for t_ in g['terms']], [(l, list(rh), a, c_, (list(tr_) if tr_ is not None else None)) for (l, rh, a, c_, tr_) in g['rules']])
+                cm = dict(gg.terms)
+                for _ in range(6):
+                    w = gen.rand_sentence(rng, gg, maxlen=7)
+                    if w is not None and all(x in cm and cm[x] >= 0 for x in w):
+                        sents.append([cm[x] for x in w])
+            except Exception:
+                sents = []
+            for k_ in range(4):
+                toks = sents[k_] if k_ < min(3, len(sents)) else [rng.choice(codes) for _ in range(rng.randint(0, 5))]
                 L.append('PARSE 0 0 %d %s' % (len(toks), ' '.join(map(str, toks))))
                 L.append('PARSE 1 0 %d %s' % (len(toks), ' '.join(map(str, toks))))
         L += ['FREEG 0', 'FREEG 1', 'END']
